@@ -105,7 +105,7 @@ def sites_in(body):
                         continue
                 out.append((t['cs'], n, tables.MAY_PANIC[n]))
             elif n == 'core::num::<impl u16>::from_str_radix' or (n and n.endswith('::from_str_radix')):
-                r = const_int(t['args'][1]) if len(t['args']) > 1 else None
+                r = _const_of(body, t['args'][1]) if len(t['args']) > 1 else None      # (a constant, also when it arrives through a copy: an inlined helper's parameter)
                 if r is None or not (2 <= r <= 36):
                     out.append((t['cs'], n, 'radix not a constant in 2..=36'))
     return out
